@@ -259,6 +259,10 @@ func (e *Exec) patternIntrinsicHarness(fn *ssa.Function, name string) Intrinsic 
 			st.Overrides = nm
 			return ret1(st, nil)
 		}
+	case "vNative":
+		return func(e *Exec, st *State, fn *ssa.Function, args []Value, depth int) []Outcome {
+			return ret1(st, e.TS.Bool(false))
+		}
 	case "vTier":
 		return func(e *Exec, st *State, fn *ssa.Function, args []Value, depth int) []Outcome {
 			if e.Tier == "thorough" {
